@@ -3,6 +3,7 @@ package main
 import (
 	"bytes"
 	"fmt"
+	"strings"
 )
 
 func genC18(h *H) {
@@ -35,6 +36,21 @@ func genC18(h *H) {
 		h.tag("rngfault:sc")
 		h.Run(c)
 	}
+	// (2b) a transient fault at every single Read call of the randomness source
+	for _, kind := range []string{"seal", "sc", "sign-att", "sign-det"} {
+		for _, nr := range []int{1, 2, 3, 5} {
+			if nr > 1 && (kind == "sign-att" || kind == "sign-det") {
+				continue
+			}
+			for _, v := range []string{"1.0", "2.0"} {
+				if kind == "sc" && v == "1.0" {
+					continue
+				}
+				h.tag("rngfault-transient:" + kind)
+				h.Run(Case{Op: "rng_transient", A: map[string]string{"kind": kind, "v": v, "n": fmt.Sprint(nr), "seed": hx(h.rng.Bytes(8)), "oneshot": fmt.Sprint(nr % 2)}})
+			}
+		}
+	}
 	// (1) freshness across repeated calls with identical arguments
 	n := 60
 	if thorough {
@@ -44,6 +60,56 @@ func genC18(h *H) {
 }
 
 func init() {
+	// a transient failure of the randomness source at its k-th Read call, for every k a
+	// fault-free run makes: the operation must fail (fail closed), never emit a message
+	evaluators["rng_transient"] = evaluator{run: func(h *H, c Case) (fs []Failure) {
+		var nr int
+		fmt.Sscan(c.A["n"], &nr)
+		r := &SplitMix{s: 99}
+		for _, b := range unhx(c.A["seed"]) {
+			r.s = r.s*131 + uint64(b)
+		}
+		oneshot := c.A["oneshot"] == "1"
+		ssk, sig := r.Bytes(32), newSigSecret(r.Bytes(32))
+		var rpk [][]byte
+		for i := 0; i < nr; i++ {
+			rpk = append(rpk, boxPk(r.Bytes(32)))
+		}
+		stream := r.Bytes(4096)
+		msg := []byte("fail closed")
+		run := func() (out []byte, err error) {
+			switch c.A["kind"] {
+			case "seal":
+				var rc []string
+				for _, pk := range rpk {
+					rc = append(rc, hx(pk)+":v")
+				}
+				out, _, err = implSeal(parseVersion(c.A["v"]), hx(ssk), strings.Join(rc, ","), [][]byte{msg}, stream, oneshot)
+			case "sc":
+				out, _, err = implScSeal(hx(sig), blist(rpk), "_", [][]byte{msg}, stream, oneshot)
+			case "sign-att":
+				out, _, err = implSign("att", parseVersion(c.A["v"]), sig, [][]byte{msg}, stream, oneshot)
+			default:
+				out, _, err = implSign("det", parseVersion(c.A["v"]), sig, [][]byte{msg}, stream, oneshot)
+			}
+			return
+		}
+		randFailAt = 0
+		if _, err := run(); err != nil {
+			return append(fs, Failure{Kind: "oracle", Key: "rng-transient-baseline-fails", Desc: err.Error()})
+		}
+		total := randCalls
+		defer func() { randFailAt = 0 }()
+		for k := 1; k <= total; k++ {
+			randFailAt = k
+			out, err := run()
+			if err == nil {
+				fs = append(fs, Failure{Kind: "oracle", Key: "rng-fault-swallowed-" + c.A["kind"], Desc: fmt.Sprintf("%s with %d recipients: Read call %d of %d on the randomness source failed (transiently), yet the operation succeeded and emitted %d bytes", c.A["kind"], nr, k, total, len(out))})
+				break
+			}
+		}
+		return
+	}}
 	evaluators["fresh"] = evaluator{run: func(h *H, c Case) (fs []Failure) {
 		var n int
 		fmt.Sscan(c.A["n"], &n)
